@@ -38,6 +38,23 @@ st!(PxU32 { x: u32 });
 st!(PxEnum { x: UnitE });
 st!(PxOpt { x: Option<String> });
 st!(PxNested { x: NestedT });
+/// untagged enums whose schema is an anyOf of a scalar and an array (in both orders): not scalar
+#[derive(Deserialize, JsonSchema)]
+#[serde(untagged)]
+pub enum OneOrMany {
+    One(String),
+    Many(Vec<String>),
+}
+#[derive(Deserialize, JsonSchema)]
+#[serde(untagged)]
+pub enum ManyOrOne {
+    Many(Vec<String>),
+    One(String),
+}
+st!(PxOneOrMany { x: OneOrMany });
+st!(PxManyOrOne { x: ManyOrOne });
+st!(QqOneOrMany { q: OneOrMany });
+st!(QqManyOrOne { q: ManyOrOne });
 st!(Qq { q: String });
 st!(Qx { x: String });
 st!(QqVec { q: Vec<String> });
@@ -65,6 +82,8 @@ pub const PSHAPES: &[(&str, &[(&str, Class)])] = &[
     ("Path{x:unit enum}", &[("x", Class::Scalar)]),
     ("Path{x:Option<String>}", &[("x", Class::Scalar)]),
     ("Path{x:nested struct}", &[("x", Class::NonScalar)]),
+    ("Path{x:untagged String|Vec<String>}", &[("x", Class::NonScalar)]),
+    ("Path{x:untagged Vec<String>|String}", &[("x", Class::NonScalar)]),
 ];
 pub const QSHAPES: &[(&str, &[(&str, Class)])] = &[
     ("none", &[]),
@@ -73,6 +92,8 @@ pub const QSHAPES: &[(&str, &[(&str, Class)])] = &[
     ("Query{q:Vec<String>}", &[("q", Class::NonScalar)]),
     ("Query{q:nested struct}", &[("q", Class::NonScalar)]),
     ("Query{q:Option<u32>}", &[("q", Class::Scalar)]),
+    ("Query{q:untagged String|Vec<String>}", &[("q", Class::NonScalar)]),
+    ("Query{q:untagged Vec<String>|String}", &[("q", Class::NonScalar)]),
 ];
 pub const TEMPLATES: &[&str] = &[
     "/", "/a", "/{x}", "/{y}", "/{x}/{y}", "/{r:.*}", "/{x}/{r:.*}", "/{x:.*}", "/a/{x}", "/a/{x}/", "/a{x}b", "/{x}/{x}", "/{r:.*}/a", "/{x}/{r:.*}/{y}", "/{}", "/{x",
@@ -102,7 +123,9 @@ fn ep_q<P: DeserializeOwned + JsonSchema + Send + Sync + 'static>(qi: usize, pat
         2 => ApiEndpoint::new(op, hpq::<P, Qx>, m, ct, path, v),
         3 => ApiEndpoint::new(op, hpq::<P, QqVec>, m, ct, path, v),
         4 => ApiEndpoint::new(op, hpq::<P, QqNested>, m, ct, path, v),
-        _ => ApiEndpoint::new(op, hpq::<P, QqOpt>, m, ct, path, v),
+        5 => ApiEndpoint::new(op, hpq::<P, QqOpt>, m, ct, path, v),
+        6 => ApiEndpoint::new(op, hpq::<P, QqOneOrMany>, m, ct, path, v),
+        _ => ApiEndpoint::new(op, hpq::<P, QqManyOrOne>, m, ct, path, v),
     }
 }
 fn ep_noq(qi: usize, path: &str) -> ApiEndpoint<AppCtx> {
@@ -114,7 +137,9 @@ fn ep_noq(qi: usize, path: &str) -> ApiEndpoint<AppCtx> {
         2 => ApiEndpoint::new(op, hq::<Qx>, m, ct, path, v),
         3 => ApiEndpoint::new(op, hq::<QqVec>, m, ct, path, v),
         4 => ApiEndpoint::new(op, hq::<QqNested>, m, ct, path, v),
-        _ => ApiEndpoint::new(op, hq::<QqOpt>, m, ct, path, v),
+        5 => ApiEndpoint::new(op, hq::<QqOpt>, m, ct, path, v),
+        6 => ApiEndpoint::new(op, hq::<QqOneOrMany>, m, ct, path, v),
+        _ => ApiEndpoint::new(op, hq::<QqManyOrOne>, m, ct, path, v),
     }
 }
 fn endpoint(pi: usize, qi: usize, path: &str) -> ApiEndpoint<AppCtx> {
@@ -130,7 +155,9 @@ fn endpoint(pi: usize, qi: usize, path: &str) -> ApiEndpoint<AppCtx> {
         8 => ep_q::<PxU32>(qi, path),
         9 => ep_q::<PxEnum>(qi, path),
         10 => ep_q::<PxOpt>(qi, path),
-        _ => ep_q::<PxNested>(qi, path),
+        11 => ep_q::<PxNested>(qi, path),
+        12 => ep_q::<PxOneOrMany>(qi, path),
+        _ => ep_q::<PxManyOrOne>(qi, path),
     }
 }
 
